@@ -50,6 +50,7 @@ type Obligation struct {
 	Model   string
 	SMTSize int
 	Note    string
+	Confirmed string // second solver that confirmed unsat (thorough tier)
 }
 
 type structInfo struct {
